@@ -3,7 +3,8 @@
   /repo/sm4/sm4_gcm_amd64.go) to the SPECIFICATION `Spec.GCM.sealGCM` / `Spec.GCM.openGCM`, for an oracle that answers
   the assembly routines as specified.
 
-    fn_0  sm4.sm4GcmAsm.Seal       `ir_Seal_amd64_eq_spec`   (panics: `ir_Seal_amd64_panic_nonce`, `…_panic_long`)
+    fn_0  sm4.sm4GcmAsm.Seal       `ir_Seal_amd64_eq_spec`   (panics: `ir_Seal_amd64_panic_nonce`, `…_panic_long`;
+                                                              index panic: `ir_Seal_amd64_stuck_empty`)
     fn_1  sm4.ensureCapacity       `ensureCapacity_amd64_computes`
     fn_2  sm4.sm4GcmAsm.Open       `ir_Open_amd64_eq_spec`   (outside the AEAD domain: `ir_Open_amd64_too_long`;
                                                               panics: `ir_Open_amd64_panic_nonce`, `…_panic_tag`)
@@ -14,10 +15,21 @@
 
   INTERFACE.  `LeafOkAmd64 O E rk`: what the oracle `O` answers for the routines the glue calls, on byte values, in the
   exact argument shapes of the IR calls.  `LeafSpecAmd64 sem E rk := LeafOkAmd64 (asmOracle Amd64.asmSpecs sem) E rk`.
-  INHABITANT: `leafSpecAmd64_sem rkw : LeafSpecAmd64 semAmd64 (Spec.SM4.cryptFast rkw) (.arr (rkw.map w32V))` where
+  INHABITANT (`rkw ≠ []`): `leafSpecAmd64_sem rkw hrk : LeafSpecAmd64 semAmd64 (Spec.SM4.cryptFast rkw) (.arr (rkw.map w32V))` where
   `semAmd64` is the amd64 part of the driver's reference semantics (Driver/CTIRSM4.lean `sem`), by routine NUMBER.
 
-  FUELS: `fuelEnsAmd64 = 18`, `fuelSealAmd64 = 38`, `fuelOpenAmd64 = 54` (constants: no loop in the glue).
+  FUELS: `fuelEnsAmd64 = 22`, `fuelSealAmd64 = 48`, `fuelOpenAmd64 = 64` (constants: no loop in the glue).
+  BOUNDS CHECKS of `&a[i]` (pointer arguments of the routines; in the IR an element read into the blank variable, STUCK
+  when out of range like any Go index panic) and what each needs:
+    `&g.roundKeys[0]`  (sealAsm, openAsm)  the round-key array is not empty: field `rk_ne` of `LeafOkAmd64`;
+    `&ret[len(dst)]`   (sealAsm)           0 < |pt| + tagSize: hypothesis `hne` of Seal (weaker than NewGCM's 12 ≤ tagSize;
+                                           otherwise STUCK: `ir_Seal_amd64_stuck_empty`);
+    `&ret[len(dst)]`   (openAsm)           guarded by `len(ret) > len(dst)` (line 46), else nil is passed: no hypothesis;
+                                           the MUTANT `>=` is stuck on a tag-only input (`ir_Open_amd64_mutant_stuck`)
+                                           where `fn_2` returns `(dst, nil)` (`ir_Open_amd64_tag_only`);
+    `&temp[0]`         (sealAsm, openAsm)  `temp` is a `[32]byte`: always in range;
+    `&head[0]`, `&array[0]` (copyAsm)      guarded by `arrayLen != 0`, |head| = arrayLen + asked: always in range.
+  `nonce`, the text and `additionalData` are passed as SLICES (no `&x[0]`): they may be empty, no hypothesis.
   HYPOTHESES of the main theorems: `nonce.length = nonceSize` (else panic), text inside the GCM bound (Seal: else panic;
   Open: else `(nil, errOpen)`, stated separately since `openGCM` has no bound), `tagSize ≤ 16` (Seal) / `12 ≤ tagSize ≤ 16`
   (Open; below 12: panic) — what `NewGCM` (fn_6) enforces —, `len(dst) ≤ cap(dst) < 2^62` (Go: a capacity is an `int` and
@@ -61,6 +73,8 @@ def maxPlain : Nat := 68719476704
 structure LeafOkAmd64 (O : Oracle) (E : Bytes → Bytes) (rk : Val) : Prop where
   /-- a block is 16 bytes -/
   E_len : ∀ b, (E b).length = 16
+  /-- the round-key array is not empty: Go takes `&g.roundKeys[0]` (an index panic otherwise) -/
+  rk_ne : ∃ w ws, rk = .arr (w :: ws)
   /-- the frame record that precedes every routine call returns nothing -/
   frame : ∀ args, O 0 args = []
   /-- `needExpand(array, asked)` on (len, cap, asked): 0 when cap − len ≥ asked, else 1 -/
@@ -167,9 +181,13 @@ theorem oracle11 (sem : Nat → List Val → Nat → List Int) (args : List Val)
       .arr (fillFrom (argBytes args 6) (sem 11 args 1))] := rfl
 
 /-- **the interface is satisfiable**: the reference semantics, for any list of round-key words -/
-theorem leafSpecAmd64_sem (rkw : List W32) :
+theorem leafSpecAmd64_sem (rkw : List W32) (hrk : rkw ≠ []) :
     LeafSpecAmd64 semAmd64 (Spec.SM4.cryptFast rkw) (.arr (rkw.map w32V)) where
   E_len := Proofs.GCMGlue.length_cryptFast rkw
+  rk_ne := by
+    cases rkw with
+    | nil => exact absurd rfl hrk
+    | cons w ws => exact ⟨w32V w, ws.map w32V, rfl⟩
   frame := oracle0 semAmd64
   needExpand := by
     intro len cap asked h1 h2 h3
@@ -278,6 +296,56 @@ theorem evIn_frame (hO : ∀ args, O 0 args = []) {env : Env} {args : List Expr}
     (ha : evalVs G env args = some vs) : EvIn P G O 1 env (.ext [] 0 true args) env .norm :=
   evIn_ext ha (by rw [hO]; rfl)
 
+/-- Go's bounds check of `&a[0]` -/
+theorem ev_idxc0 {env : Env} {a : Expr} {x : Bytes} (ha : evalV G env a = some (bytesV x)) (hx : 0 < x.length) :
+    ∃ v, evalV G env (.idxc a 0) = some v := by
+  rw [evalV_idxc, ha]
+  cases x with
+  | nil => simp at hx
+  | cons b t => exact ⟨_, rfl⟩
+
+theorem ev_idxc0_arr {env : Env} {a : Expr} {w : Val} {ws : List Val} (ha : evalV G env a = some (.arr (w :: ws))) :
+    evalV G env (.idxc a 0) = some w := by
+  rw [evalV_idxc, ha]; rfl
+
+/-- Go's bounds check of `&a[i]`: in range … -/
+theorem ev_idx_bytes {env : Env} {a i : Expr} {x : Bytes} {k : Nat} (ha : evalV G env a = some (bytesV x))
+    (hi : evalV G env i = some (.int (k : Int))) (hk : k < x.length) : ∃ v, evalV G env (.idx a i) = some v := by
+  rw [evalV_idx, ha, hi]
+  simp only [bytesV]
+  rw [bytesV_getIdx, List.getElem?_eq_getElem hk]
+  exact ⟨_, rfl⟩
+
+/-- … and out of range (a Go index panic: the run is stuck) -/
+theorem ev_idx_none {env : Env} {a i : Expr} {x : Bytes} {k : Nat} (ha : evalV G env a = some (bytesV x))
+    (hi : evalV G env i = some (.int (k : Int))) (hk : x.length ≤ k) : evalV G env (.idx a i) = none := by
+  rw [evalV_idx, ha, hi]
+  simp only [bytesV]
+  rw [bytesV_getIdx, List.getElem?_eq_none hk]
+  rfl
+
+theorem env_set_set (env : Env) (x : Nat) (a b : Val) : (env.set x a).set x b = env.set x b := by
+  funext y; simp only [Env.set]; split <;> rfl
+
+/-- two / three bounds checks into the blank variable `x` in front of a statement -/
+theorem checks2 {env env' : Env} {x : Nat} {e1 e2 : Expr} {v1 v2 : Val} {rest : Stmt} {F : Nat} {c : Ctl}
+    (h1 : evalV G env e1 = some v1) (h2 : evalV G (env.set x v1) e2 = some v2)
+    (hrest : EvIn P G O F (env.set x v2) rest env' c) :
+    EvIn P G O (F + 4) env (.seq (.assign x [] e1) (.seq (.assign x [] e2) rest)) env' c := by
+  have a2 := EvIn.assign (P := P) (X := O) (x := x) h2
+  rw [env_set_set] at a2
+  exact (EvIn.seq (EvIn.assign h1) (EvIn.seq a2 hrest)).mono (by omega)
+
+theorem checks3 {env env' : Env} {x : Nat} {e1 e2 e3 : Expr} {v1 v2 v3 : Val} {rest : Stmt} {F : Nat} {c : Ctl}
+    (h1 : evalV G env e1 = some v1) (h2 : evalV G (env.set x v1) e2 = some v2) (h3 : evalV G (env.set x v2) e3 = some v3)
+    (hrest : EvIn P G O F (env.set x v3) rest env' c) :
+    EvIn P G O (F + 6) env (.seq (.assign x [] e1) (.seq (.assign x [] e2) (.seq (.assign x [] e3) rest))) env' c := by
+  have a2 := EvIn.assign (P := P) (X := O) (x := x) h2
+  rw [env_set_set] at a2
+  have a3 := EvIn.assign (P := P) (X := O) (x := x) h3
+  rw [env_set_set] at a3
+  exact (EvIn.seq (EvIn.assign h1) (EvIn.seq a2 (EvIn.seq a3 hrest))).mono (by omega)
+
 theorem drop_tail (x z : Bytes) : ((x ++ z).drop x.length).take ((x ++ z).length - x.length) = z := by
   rw [List.drop_left, List.length_append, Nat.add_sub_cancel_left, List.take_length]
 
@@ -290,8 +358,11 @@ end Tools
 
 def ensA : Stmt := .seq (.ite (.op2 .gt (.op2 (.add .i64) (.var 7) (.var 1)) (.var 2)) .panic .skip)
     (.assign 3 [] (.cat (.var 0) (.mk (.op2 (.sub .i64) (.op2 (.add .i64) (.var 7) (.var 1)) (.len (.var 0))) (.lit 0))))
+def ensCopy : Stmt :=
+  .seq (.assign 4 [] (.idxc (.var 3) 0)) (.seq (.assign 4 [] (.idxc (.var 0) 0))
+    (.seq (.ext [] 0 true [(.lit 1), (.var 7)]) (.ext [3] 1 false [(.var 3), (.var 0), (.var 7)])))
 def ensB : Stmt := .seq (.assign 3 [] (.mk (.op2 (.add .i64) (.var 7) (.var 1)) (.lit 0)))
-    (.ite (.op2 .ne (.var 7) (.lit 0)) (.seq (.ext [] 0 true [(.lit 1), (.var 7)]) (.ext [3] 1 false [(.var 3), (.var 0), (.var 7)])) .skip)
+    (.ite (.op2 .ne (.var 7) (.lit 0)) ensCopy .skip)
 def ensRest : Stmt := .seq (.ite (.op2 .eq (.var 6) (.lit 0)) ensA ensB) (.seq (.ret [(.var 0), (.var 3)]) .panic)
 
 theorem fn_1_body : fn_1.body =
@@ -301,7 +372,7 @@ theorem fn_1_body : fn_1.body =
     (.seq (.assign 7 [] (.len (.var 0))) ensRest))) := rfl
 
 /-- fuel for `ensureCapacity` -/
-def fuelEnsAmd64 : Nat := 18
+def fuelEnsAmd64 : Nat := 22
 
 /-- the environment of `ensureCapacity` after `arrayLen := len(array)`; `r` = the answer of `needExpand` -/
 def ensEnv (arr : Bytes) (asked cap : Nat) (r : Int) : Env :=
@@ -377,7 +448,7 @@ theorem ensureCapacity_amd64_computes (h1 : P[1]? = some fn_1) (hL : LeafOkAmd64
       ev_op2 (evar rfl) rfl rfl
     by_cases h0 : arr.length = 0
     · have g2 : EvIn P G O 2 ((ensEnv arr asked cap 1).set 3 (bytesV (List.replicate (arr.length + asked) 0)))
-          (.ite (.op2 .ne (.var 7) (.lit 0)) (.seq (.ext [] 0 true [(.lit 1), (.var 7)]) (.ext [3] 1 false [(.var 3), (.var 0), (.var 7)])) .skip)
+          (.ite (.op2 .ne (.var 7) (.lit 0)) ensCopy .skip)
           ((ensEnv arr asked cap 1).set 3 (bytesV (List.replicate (arr.length + asked) 0))) .norm :=
         ite_false hcond (by simp [h0]) (EvIn.skip _)
       have gi : EvIn P G O 5 (ensEnv arr asked cap 1) (.ite (.op2 .eq (.var 6) (.lit 0)) ensA ensB)
@@ -396,21 +467,26 @@ theorem ensureCapacity_amd64_computes (h1 : P[1]? = some fn_1) (hL : LeafOkAmd64
           = arr ++ List.replicate asked 0 := by
         rw [List.take_length, List.drop_replicate, Nat.add_sub_cancel_left]
       rw [he] at hcp
-      have f1 : EvIn P G O 1 ((ensEnv arr asked cap 1).set 3 (bytesV (List.replicate (arr.length + asked) 0)))
-          (.ext [] 0 true [(.lit 1), (.var 7)]) ((ensEnv arr asked cap 1).set 3 (bytesV (List.replicate (arr.length + asked) 0))) .norm :=
+      obtain ⟨v1, k1⟩ := ev_idxc0 (G := G) (env := (ensEnv arr asked cap 1).set 3 (bytesV (List.replicate (arr.length + asked) 0)))
+        (a := .var 3) (x := List.replicate (arr.length + asked) 0) rfl (by rw [List.length_replicate]; omega)
+      obtain ⟨v2, k2⟩ := ev_idxc0 (G := G)
+        (env := ((ensEnv arr asked cap 1).set 3 (bytesV (List.replicate (arr.length + asked) 0))).set 4 v1)
+        (a := .var 0) (x := arr) rfl (by omega)
+      have f1 : EvIn P G O 1 (((ensEnv arr asked cap 1).set 3 (bytesV (List.replicate (arr.length + asked) 0))).set 4 v2)
+          (.ext [] 0 true [(.lit 1), (.var 7)]) (((ensEnv arr asked cap 1).set 3 (bytesV (List.replicate (arr.length + asked) 0))).set 4 v2) .norm :=
         evIn_frame hL.frame (vs := [.int 1, .int (arr.length : Int)]) rfl
-      have f2 : EvIn P G O 1 ((ensEnv arr asked cap 1).set 3 (bytesV (List.replicate (arr.length + asked) 0)))
+      have f2 : EvIn P G O 1 (((ensEnv arr asked cap 1).set 3 (bytesV (List.replicate (arr.length + asked) 0))).set 4 v2)
           (.ext [3] 1 false [(.var 3), (.var 0), (.var 7)])
-          (((ensEnv arr asked cap 1).set 3 (bytesV (List.replicate (arr.length + asked) 0))).set 3 (bytesV (arr ++ List.replicate asked 0))) .norm :=
+          ((((ensEnv arr asked cap 1).set 3 (bytesV (List.replicate (arr.length + asked) 0))).set 4 v2).set 3 (bytesV (arr ++ List.replicate asked 0))) .norm :=
         ext1 (vs := [bytesV (List.replicate (arr.length + asked) 0), bytesV arr, .int (arr.length : Int)]) rfl hcp
-      have g2 : EvIn P G O 4 ((ensEnv arr asked cap 1).set 3 (bytesV (List.replicate (arr.length + asked) 0)))
-          (.ite (.op2 .ne (.var 7) (.lit 0)) (.seq (.ext [] 0 true [(.lit 1), (.var 7)]) (.ext [3] 1 false [(.var 3), (.var 0), (.var 7)])) .skip)
-          (((ensEnv arr asked cap 1).set 3 (bytesV (List.replicate (arr.length + asked) 0))).set 3 (bytesV (arr ++ List.replicate asked 0))) .norm :=
-        ite_true hcond (bne_iff_ne.mpr (by omega)) (EvIn.seq f1 f2)
-      have gi : EvIn P G O 7 (ensEnv arr asked cap 1) (.ite (.op2 .eq (.var 6) (.lit 0)) ensA ensB)
-          (((ensEnv arr asked cap 1).set 3 (bytesV (List.replicate (arr.length + asked) 0))).set 3 (bytesV (arr ++ List.replicate asked 0))) .norm :=
+      have g2 : EvIn P G O 8 ((ensEnv arr asked cap 1).set 3 (bytesV (List.replicate (arr.length + asked) 0)))
+          (.ite (.op2 .ne (.var 7) (.lit 0)) ensCopy .skip)
+          ((((ensEnv arr asked cap 1).set 3 (bytesV (List.replicate (arr.length + asked) 0))).set 4 v2).set 3 (bytesV (arr ++ List.replicate asked 0))) .norm :=
+        ite_true hcond (bne_iff_ne.mpr (by omega)) (checks2 k1 k2 (EvIn.seq f1 f2))
+      have gi : EvIn P G O 11 (ensEnv arr asked cap 1) (.ite (.op2 .eq (.var 6) (.lit 0)) ensA ensB)
+          ((((ensEnv arr asked cap 1).set 3 (bytesV (List.replicate (arr.length + asked) 0))).set 4 v2).set 3 (bytesV (arr ++ List.replicate asked 0))) .norm :=
         ite_false (ev_op2 (evar (v := .int 1) rfl) rfl rfl) rfl (EvIn.seq g1 g2)
-      have sr : evalVs G (((ensEnv arr asked cap 1).set 3 (bytesV (List.replicate (arr.length + asked) 0))).set 3 (bytesV (arr ++ List.replicate asked 0)))
+      have sr : evalVs G ((((ensEnv arr asked cap 1).set 3 (bytesV (List.replicate (arr.length + asked) 0))).set 4 v2).set 3 (bytesV (arr ++ List.replicate asked 0)))
           [(.var 0), (.var 3)] = some [bytesV arr, bytesV (arr ++ List.replicate asked 0)] := rfl
       exact Computes.of_body h1 rfl rfl
         ((ens_run arr asked cap 1 hO (EvIn.seq gi (EvIn.seq_stop (EvIn.ret sr) (by simp)))).mono (by decide))
@@ -424,19 +500,34 @@ end Ensure
 def glueArgs (c rk : Val) (ns ts : Nat) (dst nonce txt aad : Bytes) (cap : Nat) : List Val :=
   [c, rk, .int (ns : Int), .int (ts : Int), bytesV dst, bytesV nonce, bytesV txt, bytesV aad, .int (cap : Int)]
 
-theorem fn_0_body : fn_0.body =
+/-- Seal up to (and with) the bounds check of `&g.roundKeys[0]` -/
+def sealPrefix (rest : Stmt) : Stmt :=
     .seq (.ite (.op2 .ne (.len (.var 5)) (.var 2)) (.panic) .skip)
     (.seq (.ite (.op2 .gt (.op1 (.conv .u64) (.len (.var 6))) (.lit 68719476704)) (.panic) .skip)
     (.seq (.assign 10 [] (.mk (.lit 32) (.lit 0)))
     (.seq (.call [4, 11] 1 [(.var 4), (.op2 (.add .i64) (.len (.var 6)) (.var 3)), (.var 8)])
     (.seq (.assign 12 [] (.var 11))
+    (.seq (.assign 9 [] (.idxc (.var 1) 0)) rest)))))
+
+/-- the bounds checks of `&ret[len(dst)]`, `&temp[0]`, the frame record, `sealAsm`, the result -/
+def sealRest : Stmt :=
+    .seq (.assign 9 [] (.idx (.var 12) (.len (.var 4))))
+    (.seq (.assign 9 [] (.idxc (.var 10) 0))
     (.seq (.ext [] 0 true [(.lit 11), (.var 3), (.len (.var 5)), (.len (.var 6)), (.len (.var 7))])
     (.seq (.ext [13, 10] 11 false [(.var 1), (.var 3), (.slice (.var 12) (.len (.var 4)) (.len (.var 12))), (.var 5), (.var 6), (.var 7), (.var 10)])
     (.seq (.assign 12 [] (.cat (.slice (.var 12) (.lit 0) (.len (.var 4))) (.var 13)))
-    (.seq (.ret [(.var 4), (.var 12)]) .panic)))))))) := rfl
+    (.seq (.ret [(.var 4), (.var 12)]) .panic)))))
+
+theorem fn_0_body : fn_0.body = sealPrefix sealRest := rfl
 
 /-- fuel for `Seal` -/
-def fuelSealAmd64 : Nat := fuelEnsAmd64 + 20
+def fuelSealAmd64 : Nat := fuelEnsAmd64 + 26
+
+/-- the environment of Seal after the check of `&g.roundKeys[0]` (`w` = the first round key, read into `_`): `temp` (10)
+    zeroed, `ret` (12) = `dst` extended by |pt| + tagSize zero bytes -/
+def sealEnv (c rk : Val) (ns ts : Nat) (dst nonce pt aad : Bytes) (cap : Nat) (w : Val) : Env :=
+  (((((Env.ofList (glueArgs c rk ns ts dst nonce pt aad cap)).set 10 (bytesV (List.replicate 32 0))).set 4 (bytesV dst)).set 11
+    (bytesV (dst ++ List.replicate (pt.length + ts) 0))).set 12 (bytesV (dst ++ List.replicate (pt.length + ts) 0))).set 9 w
 
 section Seal
 variable {P : Prog} {G : Nat → Val} {O : Oracle} {E : Bytes → Bytes} {rk : Val}
@@ -453,23 +544,24 @@ theorem seal_checks (c : Val) (ns ts cap : Nat) (dst nonce pt aad : Bytes) (hn :
   exact ⟨ite_false (ev_op2 (evalV_lenB (x := nonce) rfl) (evar (v := .int (nonce.length : Int)) rfl) rfl) (by simp) (EvIn.skip _),
     ite_false (ev_op2 (ev_conv_u64 (evalV_lenB (x := pt) rfl) (by omega)) rfl rfl) (decide_eq_false (by omega)) (EvIn.skip _)⟩
 
-/-- BODY LEVEL: Seal returns `dst` and `dst ‖ sealGCM` -/
-theorem seal_body (h1 : P[1]? = some fn_1) (hL : LeafOkAmd64 O E rk) (c : Val) (ns ts cap : Nat) (dst nonce pt aad : Bytes)
-    (hn : nonce.length = ns) (hp : pt.length ≤ maxPlain) (hts : ts ≤ 16) (hc : dst.length ≤ cap) (hcap : cap < 2 ^ 62) :
-    ∃ env', EvIn P G O fuelSealAmd64 (Env.ofList (glueArgs c rk ns ts dst nonce pt aad cap)) fn_0.body env'
-      (.ret [bytesV dst, bytesV (dst ++ sealGCM E ts nonce pt aad)]) := by
+/-- Seal from its entry to the check of `&g.roundKeys[0]`: what follows (`rest`) runs in `sealEnv`; both for completed
+    and for stuck continuations -/
+theorem seal_pre (h1 : P[1]? = some fn_1) (hL : LeafOkAmd64 O E rk) (c : Val) (ns ts cap : Nat) (dst nonce pt aad : Bytes)
+    (w : Val) (ws : List Val) (hrk : rk = .arr (w :: ws))
+    (hn : nonce.length = ns) (hp : pt.length ≤ maxPlain) (hts : ts ≤ 16) (hc : dst.length ≤ cap) (hcap : cap < 2 ^ 62)
+    (rest : Stmt) :
+    (∀ (F : Nat) (env' : Env) (r : Ctl), EvIn P G O F (sealEnv c rk ns ts dst nonce pt aad cap w) rest env' r →
+      EvIn P G O (F + fuelEnsAmd64 + 14) (Env.ofList (glueArgs c rk ns ts dst nonce pt aad cap)) (sealPrefix rest) env' r) ∧
+    (Stuck P G O (sealEnv c rk ns ts dst nonce pt aad cap w) rest →
+      Stuck P G O (Env.ofList (glueArgs c rk ns ts dst nonce pt aad cap)) (sealPrefix rest)) := by
   have hp' : pt.length ≤ 68719476704 := hp
-  obtain ⟨temp', hO⟩ := hL.sealAsm ts (List.replicate (pt.length + ts) 0) nonce pt aad (List.replicate 32 0) hts hp
-    (by simp) (by simp)
   obtain ⟨c1, c2⟩ := seal_checks (P := P) (G := G) (O := O) (rk := rk) c ns ts cap dst nonce pt aad hn hp
+  subst hrk
   let z : Bytes := List.replicate (pt.length + ts) 0
-  let sealed : Bytes := sealGCM E ts nonce pt aad
-  let e0 : Env := Env.ofList (glueArgs c rk ns ts dst nonce pt aad cap)
+  let e0 : Env := Env.ofList (glueArgs c (.arr (w :: ws)) ns ts dst nonce pt aad cap)
   let e1 := e0.set 10 (bytesV (List.replicate 32 0))
   let e2 := (e1.set 4 (bytesV dst)).set 11 (bytesV (dst ++ z))
   let e3 := e2.set 12 (bytesV (dst ++ z))
-  let e4 := (e3.set 13 (bytesV sealed)).set 10 (bytesV temp')
-  let e5 := e4.set 12 (bytesV (dst ++ sealed))
   have c3 : EvIn P G O 1 e0 (.assign 10 [] (.mk (.lit 32) (.lit 0))) e1 .norm := EvIn.assign (evalV_mkBytes (L := 32) rfl)
   have hadd : evalV G e1 (.op2 (.add .i64) (.len (.var 6)) (.var 3)) = some (.int ((pt.length + ts : Nat) : Int)) := by
     rw [Int.natCast_add]
@@ -479,6 +571,33 @@ theorem seal_body (h1 : P[1]? = some fn_1) (hL : LeafOkAmd64 O E rk) (c : Val) (
     (ensureCapacity_amd64_computes h1 hL dst (pt.length + ts) cap hc (by omega) (by omega)).call
       (evalVs_cons_some (v := bytesV dst) rfl (evalVs_cons_some hadd (evalVs_cons_some (v := .int (cap : Int)) rfl rfl))) rfl
   have c5 : EvIn P G O 1 e2 (.assign 12 [] (.var 11)) e3 .norm := EvIn.assign (v := bytesV (dst ++ z)) rfl
+  have c6 : EvIn P G O 1 e3 (.assign 9 [] (.idxc (.var 1) 0)) (sealEnv c (.arr (w :: ws)) ns ts dst nonce pt aad cap w) .norm :=
+    EvIn.assign (ev_idxc0_arr (ws := ws) rfl)
+  refine ⟨fun F env' r hrest => ?_, fun hrest => ?_⟩
+  · exact (EvIn.seq c1 (EvIn.seq c2 (EvIn.seq c3 (EvIn.seq c4 (EvIn.seq c5 (EvIn.seq c6 hrest)))))).mono (by omega)
+  · exact Stuck.seq_right c1 (Stuck.seq_right c2 (Stuck.seq_right c3 (Stuck.seq_right c4 (Stuck.seq_right c5
+      (Stuck.seq_right c6 hrest)))))
+
+/-- BODY LEVEL: Seal returns `dst` and `dst ‖ sealGCM` -/
+theorem seal_body (h1 : P[1]? = some fn_1) (hL : LeafOkAmd64 O E rk) (c : Val) (ns ts cap : Nat) (dst nonce pt aad : Bytes)
+    (hn : nonce.length = ns) (hp : pt.length ≤ maxPlain) (hts : ts ≤ 16) (hne : 0 < pt.length + ts)
+    (hc : dst.length ≤ cap) (hcap : cap < 2 ^ 62) :
+    ∃ env', EvIn P G O fuelSealAmd64 (Env.ofList (glueArgs c rk ns ts dst nonce pt aad cap)) fn_0.body env'
+      (.ret [bytesV dst, bytesV (dst ++ sealGCM E ts nonce pt aad)]) := by
+  obtain ⟨w, ws, hrk⟩ := hL.rk_ne
+  obtain ⟨temp', hO⟩ := hL.sealAsm ts (List.replicate (pt.length + ts) 0) nonce pt aad (List.replicate 32 0) hts hp
+    (by simp) (by simp)
+  have hpre := (seal_pre (G := G) h1 hL c ns ts cap dst nonce pt aad w ws hrk hn hp hts hc hcap sealRest).1
+  let z : Bytes := List.replicate (pt.length + ts) 0
+  let sealed : Bytes := sealGCM E ts nonce pt aad
+  obtain ⟨v2, k2⟩ := ev_idx_bytes (G := G) (env := sealEnv c rk ns ts dst nonce pt aad cap w) (a := .var 12)
+    (i := .len (.var 4)) (x := dst ++ z) (k := dst.length) rfl (evalV_lenB (x := dst) rfl)
+    (by rw [List.length_append, List.length_replicate]; omega)
+  obtain ⟨v3, k3⟩ := ev_idxc0 (G := G) (env := (sealEnv c rk ns ts dst nonce pt aad cap w).set 9 v2) (a := .var 10)
+    (x := List.replicate 32 0) rfl (by simp)
+  let e3 : Env := (sealEnv c rk ns ts dst nonce pt aad cap w).set 9 v3
+  let e4 := (e3.set 13 (bytesV sealed)).set 10 (bytesV temp')
+  let e5 := e4.set 12 (bytesV (dst ++ sealed))
   have c6 : EvIn P G O 1 e3 (.ext [] 0 true [(.lit 11), (.var 3), (.len (.var 5)), (.len (.var 6)), (.len (.var 7))]) e3 .norm :=
     evIn_frame hL.frame (evalVs_cons_some (v := .int 11) rfl (evalVs_cons_some (v := .int (ts : Int)) rfl
       (evalVs_cons_some (evalV_lenB (x := nonce) rfl) (evalVs_cons_some (evalV_lenB (x := pt) rfl)
@@ -503,19 +622,34 @@ theorem seal_body (h1 : P[1]? = some fn_1) (hL : LeafOkAmd64 O E rk) (c : Val) (
   have sr : evalVs G e5 [(.var 4), (.var 12)] = some [bytesV dst, bytesV (dst ++ sealed)] := rfl
   refine ⟨e5, ?_⟩
   rw [fn_0_body]
-  exact (EvIn.seq c1 (EvIn.seq c2 (EvIn.seq c3 (EvIn.seq c4 (EvIn.seq c5 (EvIn.seq c6 (EvIn.seq c7 (EvIn.seq c8
-    (EvIn.seq_stop (EvIn.ret sr) (by simp)))))))))).mono (by simp only [fuelSealAmd64]; omega)
+  exact (hpre _ _ _ (checks2 k2 k3 (EvIn.seq c6 (EvIn.seq c7 (EvIn.seq c8 (EvIn.seq_stop (EvIn.ret sr) (by simp))))))).mono
+    (by simp only [fuelSealAmd64]; omega)
 
 /-- **Seal (amd64) computes the specification**: the IR function, started on the receiver fields, `dst`, a nonce of the
     configured size, a plaintext inside the GCM bound, any additional data and the capacity of `dst`, returns `dst`
-    (unchanged) and `dst ‖ sealGCM E tagSize nonce plaintext additionalData`. -/
+    (unchanged) and `dst ‖ sealGCM E tagSize nonce plaintext additionalData`.  `0 < |pt| + tagSize` is what Go needs for
+    `&ret[len(dst)]` (weaker than NewGCM's `12 ≤ tagSize`); see `ir_Seal_amd64_stuck_empty`. -/
 theorem ir_Seal_amd64_eq_spec (h0 : P[0]? = some fn_0) (h1 : P[1]? = some fn_1) (hL : LeafOkAmd64 O E rk) (c : Val)
     (ns ts cap : Nat) (dst nonce pt aad : Bytes)
-    (hn : nonce.length = ns) (hp : pt.length ≤ maxPlain) (hts : ts ≤ 16) (hc : dst.length ≤ cap) (hcap : cap < 2 ^ 62) :
+    (hn : nonce.length = ns) (hp : pt.length ≤ maxPlain) (hts : ts ≤ 16) (hne : 0 < pt.length + ts)
+    (hc : dst.length ≤ cap) (hcap : cap < 2 ^ 62) :
     Computes P G O 0 fuelSealAmd64 (glueArgs c rk ns ts dst nonce pt aad cap)
       [bytesV dst, bytesV (dst ++ sealGCM E ts nonce pt aad)] := by
-  obtain ⟨env', hb⟩ := seal_body (G := G) h1 hL c ns ts cap dst nonce pt aad hn hp hts hc hcap
+  obtain ⟨env', hb⟩ := seal_body (G := G) h1 hL c ns ts cap dst nonce pt aad hn hp hts hne hc hcap
   exact Computes.of_body h0 rfl rfl hb
+
+/-- **the Go index panic of Seal**: tag size 0 and an empty plaintext — `ret` is `dst` itself and `&ret[len(dst)]` is out
+    of range: the run is STUCK with every fuel (outside NewGCM's range of tag sizes) -/
+theorem ir_Seal_amd64_stuck_empty (h0 : P[0]? = some fn_0) (h1 : P[1]? = some fn_1) (hL : LeafOkAmd64 O E rk) (c : Val)
+    (ns cap : Nat) (dst nonce aad : Bytes) (hn : nonce.length = ns) (hc : dst.length ≤ cap) (hcap : cap < 2 ^ 62) :
+    ∀ f, runV P G O f 0 (glueArgs c rk ns 0 dst nonce [] aad cap) = .stuck := by
+  obtain ⟨w, ws, hrk⟩ := hL.rk_ne
+  have hpre := (seal_pre (G := G) h1 hL c ns 0 cap dst nonce [] aad w ws hrk hn (Nat.zero_le _) (by omega) hc hcap sealRest).2
+  refine runV_of_Stuck h0 ?_
+  rw [fn_0_body]
+  refine hpre (Stuck.seq_left (Stuck.assign ?_))
+  exact ev_idx_none (G := G) (env := sealEnv c rk ns 0 dst nonce [] aad cap w) (a := .var 12) (i := .len (.var 4))
+    (x := dst ++ List.replicate (([] : Bytes).length + 0) 0) (k := dst.length) rfl (evalV_lenB (x := dst) rfl) (by simp)
 
 /-- Seal panics on a nonce of the wrong length ("incorrect nonce length given to GCM") -/
 theorem ir_Seal_amd64_panic_nonce (h0 : P[0]? = some fn_0) (c : Val) (ns ts cap : Nat) (dst nonce pt aad : Bytes)
@@ -543,22 +677,33 @@ end Seal
 /-! ## `Open` (fn_2) -/
 
 def openErr : Stmt := .ret [(.var 4), (.mk (.lit 0) (.lit 0)), (.glob 0)]
-def openCall1 : Stmt :=
+/-- frame record, `openAsm(…, &ret[len(dst)], …)`, the result -/
+def openDo1 : Stmt :=
   .seq (.ext [] 0 true [(.lit 10), (.var 3), (.len (.var 5)), (.len (.var 6)), (.len (.var 7))])
   (.seq (.ext [14, 10, 15] 10 false [(.var 1), (.var 3), (.slice (.var 12) (.len (.var 4)) (.len (.var 12))), (.var 5), (.var 6), (.var 7), (.var 10)])
   (.seq (.assign 12 [] (.cat (.slice (.var 12) (.lit 0) (.len (.var 4))) (.var 14)))
     (.assign 13 [] (.var 15))))
-def openCall2 : Stmt :=
+/-- frame record, `openAsm(…, nil, …)`, the result -/
+def openDo2 : Stmt :=
   .seq (.ext [] 0 true [(.lit 10), (.var 3), (.len (.var 5)), (.len (.var 6)), (.len (.var 7))])
   (.seq (.ext [9, 10, 16] 10 false [(.var 1), (.var 3), (.mk (.lit 0) (.lit 0)), (.var 5), (.var 6), (.var 7), (.var 10)])
     (.assign 13 [] (.var 16)))
+/-- the bounds checks of `&g.roundKeys[0]`, `&ret[len(dst)]`, `&temp[0]`, then the call -/
+def openCall1 : Stmt :=
+  .seq (.assign 9 [] (.idxc (.var 1) 0)) (.seq (.assign 9 [] (.idx (.var 12) (.len (.var 4))))
+    (.seq (.assign 9 [] (.idxc (.var 10) 0)) openDo1))
+/-- the bounds checks of `&g.roundKeys[0]`, `&temp[0]` (the destination is nil), then the call -/
+def openCall2 : Stmt :=
+  .seq (.assign 9 [] (.idxc (.var 1) 0)) (.seq (.assign 9 [] (.idxc (.var 10) 0)) openDo2)
+/-- line 46 of sm4_gcm_amd64.go: `if len(ret) > len(dst)` -/
 def openBranch : Stmt := .ite (.op2 .gt (.len (.var 12)) (.len (.var 4))) openCall1 openCall2
 def openTail : Stmt :=
   .seq (.declass 17 0 (.op2 .ne (.var 13) (.lit 1)))
   (.seq (.ite (.var 17) openErr .skip)
   (.seq (.ret [(.var 4), (.var 12), (.lit 0)]) .panic))
 
-theorem fn_2_body : fn_2.body =
+/-- Open up to `var tagMatch int` -/
+def openPrefix (rest : Stmt) : Stmt :=
     .seq (.ite (.op2 .ne (.len (.var 5)) (.var 2)) (.panic) .skip)
     (.seq (.ite (.op2 .lt (.var 3) (.lit 12)) (.panic) .skip)
     (.seq (.ite (.op2 .lt (.len (.var 6)) (.var 3)) openErr .skip)
@@ -566,11 +711,17 @@ theorem fn_2_body : fn_2.body =
     (.seq (.assign 10 [] (.mk (.lit 32) (.lit 0)))
     (.seq (.call [4, 11] 1 [(.var 4), (.op2 (.sub .i64) (.len (.var 6)) (.var 3)), (.var 8)])
     (.seq (.assign 12 [] (.var 11))
-    (.seq (.assign 13 [] (.lit 0))
-    (.seq openBranch openTail)))))))) := rfl
+    (.seq (.assign 13 [] (.lit 0)) rest)))))))
+
+theorem fn_2_body : fn_2.body = openPrefix (.seq openBranch openTail) := rfl
+
+/-- MUTANT of line 46: `>=` instead of `>` (takes `&ret[len(dst)]` of an empty tail) -/
+def openBranchMut : Stmt := .ite (.op2 .ge (.len (.var 12)) (.len (.var 4))) openCall1 openCall2
+/-- `fn_2` with the guard of line 46 changed from `.gt` to `.ge`, nothing else -/
+def fn_2_mut : Fn := { nparams := 9, nvars := 18, body := openPrefix (.seq openBranchMut openTail) }
 
 /-- fuel for `Open` -/
-def fuelOpenAmd64 : Nat := fuelEnsAmd64 + 36
+def fuelOpenAmd64 : Nat := fuelEnsAmd64 + 42
 
 /-- `sm4.errOpen` in the generated program: the non-nil error value 1 -/
 theorem globals0 : GX 0 = .int 1 := by rfl
@@ -613,10 +764,10 @@ theorem open_tail_err {env : Env} {dst : Bytes} (h4 : env 4 = bytesV dst) (h13 :
     ite_true (β := ((0 : Int) != 1)) rfl rfl (open_err (by show env 4 = _; exact h4))
   exact ⟨_, (EvIn.seq d (EvIn.seq_stop i (by simp))).mono (by omega)⟩
 
-theorem open_frame (hL : LeafOkAmd64 O E rk) (c : Val) (ns ts cap : Nat) (dst nonce ct aad : Bytes) :
-    EvIn P G O 1 (openEnv c rk ns ts dst nonce ct aad cap)
+theorem open_frame (hL : LeafOkAmd64 O E rk) (c : Val) (ns ts cap : Nat) (dst nonce ct aad : Bytes) (v : Val) :
+    EvIn P G O 1 ((openEnv c rk ns ts dst nonce ct aad cap).set 9 v)
       (.ext [] 0 true [(.lit 10), (.var 3), (.len (.var 5)), (.len (.var 6)), (.len (.var 7))])
-      (openEnv c rk ns ts dst nonce ct aad cap) .norm :=
+      ((openEnv c rk ns ts dst nonce ct aad cap).set 9 v) .norm :=
   evIn_frame hL.frame (evalVs_cons_some (v := .int 10) rfl (evalVs_cons_some (v := .int (ts : Int)) rfl
     (evalVs_cons_some (evalV_lenB (x := nonce) rfl) (evalVs_cons_some (evalV_lenB (x := ct) rfl)
       (evalVs_cons_some (evalV_lenB (x := aad) rfl) rfl)))))
@@ -627,14 +778,14 @@ theorem open_cond (c : Val) (ns ts cap : Nat) (dst nonce ct aad : Bytes) :
       = some (.int (ofBool (decide ((dst.length : Int) < ((dst ++ List.replicate (ct.length - ts) (0 : UInt8)).length : Int))))) :=
   ev_op2 (evalV_lenB (x := dst ++ List.replicate (ct.length - ts) 0) rfl) (evalV_lenB (x := dst) rfl) rfl
 
-theorem open_args1 (c : Val) (ns ts cap : Nat) (dst nonce ct aad : Bytes) :
-    evalVs G (openEnv c rk ns ts dst nonce ct aad cap)
+theorem open_args1 (c : Val) (ns ts cap : Nat) (dst nonce ct aad : Bytes) (v : Val) :
+    evalVs G ((openEnv c rk ns ts dst nonce ct aad cap).set 9 v)
       [(.var 1), (.var 3), (.slice (.var 12) (.len (.var 4)) (.len (.var 12))), (.var 5), (.var 6), (.var 7), (.var 10)]
     = some [rk, .int (ts : Int), bytesV (List.replicate (ct.length - ts) 0), bytesV nonce, bytesV ct, bytesV aad,
         bytesV (List.replicate 32 0)] := by
-  have hsl : evalV G (openEnv c rk ns ts dst nonce ct aad cap) (.slice (.var 12) (.len (.var 4)) (.len (.var 12)))
+  have hsl : evalV G ((openEnv c rk ns ts dst nonce ct aad cap).set 9 v) (.slice (.var 12) (.len (.var 4)) (.len (.var 12)))
       = some (bytesV (List.replicate (ct.length - ts) 0)) := by
-    have := evalV_sliceB (G := G) (env := openEnv c rk ns ts dst nonce ct aad cap) (a := .var 12) (lo := .len (.var 4))
+    have := evalV_sliceB (G := G) (env := (openEnv c rk ns ts dst nonce ct aad cap).set 9 v) (a := .var 12) (lo := .len (.var 4))
       (hi := .len (.var 12)) (x := dst ++ List.replicate (ct.length - ts) 0)
       (l := dst.length) (h := (dst ++ List.replicate (ct.length - ts) (0 : UInt8)).length) rfl (evalV_lenB (x := dst) rfl)
       (evalV_lenB (x := dst ++ List.replicate (ct.length - ts) 0) rfl)
@@ -644,97 +795,145 @@ theorem open_args1 (c : Val) (ns ts cap : Nat) (dst nonce ct aad : Bytes) :
     (evalVs_cons_some (v := bytesV nonce) rfl (evalVs_cons_some (v := bytesV ct) rfl (evalVs_cons_some (v := bytesV aad) rfl
       (evalVs_cons_some (v := bytesV (List.replicate 32 0)) rfl rfl))))))
 
-theorem open_args2 (c : Val) (ns ts cap : Nat) (dst nonce ct aad : Bytes) :
-    evalVs G (openEnv c rk ns ts dst nonce ct aad cap)
+theorem open_args2 (c : Val) (ns ts cap : Nat) (dst nonce ct aad : Bytes) (v : Val) :
+    evalVs G ((openEnv c rk ns ts dst nonce ct aad cap).set 9 v)
       [(.var 1), (.var 3), (.mk (.lit 0) (.lit 0)), (.var 5), (.var 6), (.var 7), (.var 10)]
     = some [rk, .int (ts : Int), bytesV [], bytesV nonce, bytesV ct, bytesV aad, bytesV (List.replicate 32 0)] :=
   evalVs_cons_some (v := rk) rfl (evalVs_cons_some (v := .int (ts : Int)) rfl (evalVs_cons_some (evalV_mkBytes (L := 0) rfl)
     (evalVs_cons_some (v := bytesV nonce) rfl (evalVs_cons_some (v := bytesV ct) rfl (evalVs_cons_some (v := bytesV aad) rfl
       (evalVs_cons_some (v := bytesV (List.replicate 32 0)) rfl rfl))))))
 
+/-- the bounds checks in front of `openAsm(…, &ret[len(dst)], …)` pass when the tail of `ret` is not empty (`v`: the last
+    value read into the blank variable) -/
+theorem open_checks1 (hL : LeafOkAmd64 O E rk) (c : Val) (ns ts cap : Nat) (dst nonce ct aad : Bytes) (hlen : ts < ct.length) :
+    ∃ v, ∀ (F : Nat) (env' : Env) (r : Ctl), EvIn P G O F ((openEnv c rk ns ts dst nonce ct aad cap).set 9 v) openDo1 env' r →
+      EvIn P G O (F + 6) (openEnv c rk ns ts dst nonce ct aad cap) openCall1 env' r := by
+  obtain ⟨w, ws, hrk⟩ := hL.rk_ne
+  have k1 : evalV G (openEnv c rk ns ts dst nonce ct aad cap) (.idxc (.var 1) 0) = some w :=
+    ev_idxc0_arr (ws := ws) (by rw [← hrk]; rfl)
+  obtain ⟨v2, k2⟩ := ev_idx_bytes (G := G) (env := (openEnv c rk ns ts dst nonce ct aad cap).set 9 w) (a := .var 12)
+    (i := .len (.var 4)) (x := dst ++ List.replicate (ct.length - ts) 0) (k := dst.length) rfl (evalV_lenB (x := dst) rfl)
+    (by rw [List.length_append, List.length_replicate]; omega)
+  obtain ⟨v3, k3⟩ := ev_idxc0 (G := G) (env := (openEnv c rk ns ts dst nonce ct aad cap).set 9 v2) (a := .var 10)
+    (x := List.replicate 32 0) rfl (by simp)
+  exact ⟨v3, fun F env' r h => checks3 k1 k2 k3 h⟩
+
+/-- the bounds checks in front of `openAsm(…, nil, …)` -/
+theorem open_checks2 (hL : LeafOkAmd64 O E rk) (c : Val) (ns ts cap : Nat) (dst nonce ct aad : Bytes) :
+    ∃ v, ∀ (F : Nat) (env' : Env) (r : Ctl), EvIn P G O F ((openEnv c rk ns ts dst nonce ct aad cap).set 9 v) openDo2 env' r →
+      EvIn P G O (F + 4) (openEnv c rk ns ts dst nonce ct aad cap) openCall2 env' r := by
+  obtain ⟨w, ws, hrk⟩ := hL.rk_ne
+  have k1 : evalV G (openEnv c rk ns ts dst nonce ct aad cap) (.idxc (.var 1) 0) = some w :=
+    ev_idxc0_arr (ws := ws) (by rw [← hrk]; rfl)
+  obtain ⟨v3, k3⟩ := ev_idxc0 (G := G) (env := (openEnv c rk ns ts dst nonce ct aad cap).set 9 w) (a := .var 10)
+    (x := List.replicate 32 0) rfl (by simp)
+  exact ⟨v3, fun F env' r h => checks2 k1 k3 h⟩
+
+/-- `openAsm(…, &ret[len(dst)], …)`, accepted -/
+theorem open_do1_ok (hL : LeafOkAmd64 O E rk) (c : Val) (ns ts cap : Nat) (dst nonce ct aad pt : Bytes)
+    (hts' : ts ≤ 16) (htc : ts ≤ ct.length) (hcl : ct.length ≤ maxPlain + ts) (ho : openGCM E ts nonce ct aad = some pt) :
+    ∃ temp' : Bytes, ∀ v, EvIn P G O 7 ((openEnv c rk ns ts dst nonce ct aad cap).set 9 v) openDo1
+      (((((((openEnv c rk ns ts dst nonce ct aad cap).set 9 v).set 14 (bytesV pt)).set 10 (bytesV temp')).set 15 (.int 1)).set 12
+        (bytesV (dst ++ pt))).set 13 (.int 1)) .norm := by
+  obtain ⟨temp', hO⟩ := hL.openOk ts (List.replicate (ct.length - ts) 0) nonce ct aad (List.replicate 32 0) pt hts' htc hcl
+    (by simp) (by simp) ho
+  refine ⟨temp', fun v => ?_⟩
+  let e0 := (openEnv c rk ns ts dst nonce ct aad cap).set 9 v
+  let e1 := ((e0.set 14 (bytesV pt)).set 10 (bytesV temp')).set 15 (.int 1)
+  let e2 := e1.set 12 (bytesV (dst ++ pt))
+  let e3 := e2.set 13 (.int 1)
+  have x1 : EvIn P G O 1 e0 (.ext [14, 10, 15] 10 false [(.var 1), (.var 3), (.slice (.var 12) (.len (.var 4)) (.len (.var 12))), (.var 5), (.var 6), (.var 7), (.var 10)]) e1 .norm :=
+    evIn_ext (open_args1 c ns ts cap dst nonce ct aad v) (by rw [hO]; rfl)
+  have hhd : evalV G e1 (.slice (.var 12) (.lit 0) (.len (.var 4))) = some (bytesV dst) := by
+    have := evalV_sliceB (G := G) (env := e1) (a := .var 12) (lo := .lit 0) (hi := .len (.var 4))
+      (x := dst ++ List.replicate (ct.length - ts) 0)
+      (l := 0) (h := dst.length) rfl rfl (evalV_lenB (x := dst) rfl) (Nat.zero_le _) (by rw [List.length_append]; omega)
+    rw [this, take_head]
+  have x2 : EvIn P G O 1 e1 (.assign 12 [] (.cat (.slice (.var 12) (.lit 0) (.len (.var 4))) (.var 14))) e2 .norm :=
+    EvIn.assign (evalV_catB hhd (evar (v := bytesV pt) rfl))
+  have x3 : EvIn P G O 1 e2 (.assign 13 [] (.var 15)) e3 .norm := EvIn.assign (v := .int 1) rfl
+  exact EvIn.seq (open_frame hL c ns ts cap dst nonce ct aad v) (EvIn.seq x1 (EvIn.seq x2 x3))
+
+/-- `openAsm(…, &ret[len(dst)], …)`, rejected -/
+theorem open_do1_fail (hL : LeafOkAmd64 O E rk) (c : Val) (ns ts cap : Nat) (dst nonce ct aad : Bytes)
+    (hts' : ts ≤ 16) (htc : ts ≤ ct.length) (hcl : ct.length ≤ maxPlain + ts) (ho : openGCM E ts nonce ct aad = none) :
+    ∃ dst' temp' : Bytes, ∀ v, EvIn P G O 7 ((openEnv c rk ns ts dst nonce ct aad cap).set 9 v) openDo1
+      (((((((openEnv c rk ns ts dst nonce ct aad cap).set 9 v).set 14 (bytesV dst')).set 10 (bytesV temp')).set 15 (.int 0)).set 12
+        (bytesV (dst ++ dst'))).set 13 (.int 0)) .norm := by
+  obtain ⟨dst', temp', hO⟩ := hL.openFail ts (List.replicate (ct.length - ts) 0) nonce ct aad (List.replicate 32 0) hts' htc hcl
+    (by simp) (by simp) ho
+  refine ⟨dst', temp', fun v => ?_⟩
+  let e0 := (openEnv c rk ns ts dst nonce ct aad cap).set 9 v
+  let e1 := ((e0.set 14 (bytesV dst')).set 10 (bytesV temp')).set 15 (.int 0)
+  let e2 := e1.set 12 (bytesV (dst ++ dst'))
+  let e3 := e2.set 13 (.int 0)
+  have x1 : EvIn P G O 1 e0 (.ext [14, 10, 15] 10 false [(.var 1), (.var 3), (.slice (.var 12) (.len (.var 4)) (.len (.var 12))), (.var 5), (.var 6), (.var 7), (.var 10)]) e1 .norm :=
+    evIn_ext (open_args1 c ns ts cap dst nonce ct aad v) (by rw [hO]; rfl)
+  have hhd : evalV G e1 (.slice (.var 12) (.lit 0) (.len (.var 4))) = some (bytesV dst) := by
+    have := evalV_sliceB (G := G) (env := e1) (a := .var 12) (lo := .lit 0) (hi := .len (.var 4))
+      (x := dst ++ List.replicate (ct.length - ts) 0)
+      (l := 0) (h := dst.length) rfl rfl (evalV_lenB (x := dst) rfl) (Nat.zero_le _) (by rw [List.length_append]; omega)
+    rw [this, take_head]
+  have x2 : EvIn P G O 1 e1 (.assign 12 [] (.cat (.slice (.var 12) (.lit 0) (.len (.var 4))) (.var 14))) e2 .norm :=
+    EvIn.assign (evalV_catB hhd (evar (v := bytesV dst') rfl))
+  have x3 : EvIn P G O 1 e2 (.assign 13 [] (.var 15)) e3 .norm := EvIn.assign (v := .int 0) rfl
+  exact EvIn.seq (open_frame hL c ns ts cap dst nonce ct aad v) (EvIn.seq x1 (EvIn.seq x2 x3))
+
+/-- `openAsm(…, nil, …)` with integer result `m` -/
+theorem open_do2 (hL : LeafOkAmd64 O E rk) (c : Val) (ns ts cap : Nat) (dst nonce ct aad : Bytes) (d' temp' : Bytes) (m : Int)
+    (hO : O 10 [rk, .int (ts : Int), bytesV [], bytesV nonce, bytesV ct, bytesV aad, bytesV (List.replicate 32 0)]
+      = [bytesV d', bytesV temp', .int m]) (v : Val) :
+    EvIn P G O 5 ((openEnv c rk ns ts dst nonce ct aad cap).set 9 v) openDo2
+      ((((((openEnv c rk ns ts dst nonce ct aad cap).set 9 v).set 9 (bytesV d')).set 10 (bytesV temp')).set 16 (.int m)).set 13 (.int m))
+      .norm := by
+  let e0 := (openEnv c rk ns ts dst nonce ct aad cap).set 9 v
+  let e1 := ((e0.set 9 (bytesV d')).set 10 (bytesV temp')).set 16 (.int m)
+  have x1 : EvIn P G O 1 e0 (.ext [9, 10, 16] 10 false [(.var 1), (.var 3), (.mk (.lit 0) (.lit 0)), (.var 5), (.var 6), (.var 7), (.var 10)]) e1 .norm :=
+    evIn_ext (open_args2 c ns ts cap dst nonce ct aad v) (by rw [hO]; rfl)
+  have x2 : EvIn P G O 1 e1 (.assign 13 [] (.var 16)) (e1.set 13 (.int m)) .norm := EvIn.assign (v := .int m) rfl
+  exact EvIn.seq (open_frame hL c ns ts cap dst nonce ct aad v) (EvIn.seq x1 x2)
+
 /-- the call of `openAsm` (either shape), accepted tag: `ret` = `dst ‖ plaintext`, `tagMatch` = 1 -/
 theorem open_branch_ok (hL : LeafOkAmd64 O E rk) (c : Val) (ns ts cap : Nat) (dst nonce ct aad pt : Bytes)
     (hts' : ts ≤ 16) (htc : ts ≤ ct.length) (hcl : ct.length ≤ maxPlain + ts) (ho : openGCM E ts nonce ct aad = some pt) :
-    ∃ env', EvIn P G O 8 (openEnv c rk ns ts dst nonce ct aad cap) openBranch env' .norm ∧
+    ∃ env', EvIn P G O 14 (openEnv c rk ns ts dst nonce ct aad cap) openBranch env' .norm ∧
       env' 4 = bytesV dst ∧ env' 12 = bytesV (dst ++ pt) ∧ env' 13 = .int 1 := by
   by_cases hlen : ts < ct.length
-  · obtain ⟨temp', hO⟩ := hL.openOk ts (List.replicate (ct.length - ts) 0) nonce ct aad (List.replicate 32 0) pt hts' htc hcl
-      (by simp) (by simp) ho
-    let e0 := openEnv c rk ns ts dst nonce ct aad cap
-    let e1 := ((e0.set 14 (bytesV pt)).set 10 (bytesV temp')).set 15 (.int 1)
-    let e2 := e1.set 12 (bytesV (dst ++ pt))
-    let e3 := e2.set 13 (.int 1)
-    have x1 : EvIn P G O 1 e0 (.ext [14, 10, 15] 10 false [(.var 1), (.var 3), (.slice (.var 12) (.len (.var 4)) (.len (.var 12))), (.var 5), (.var 6), (.var 7), (.var 10)]) e1 .norm :=
-      evIn_ext (open_args1 c ns ts cap dst nonce ct aad) (by rw [hO]; rfl)
-    have hhd : evalV G e1 (.slice (.var 12) (.lit 0) (.len (.var 4))) = some (bytesV dst) := by
-      have := evalV_sliceB (G := G) (env := e1) (a := .var 12) (lo := .lit 0) (hi := .len (.var 4))
-        (x := dst ++ List.replicate (ct.length - ts) 0)
-        (l := 0) (h := dst.length) rfl rfl (evalV_lenB (x := dst) rfl) (Nat.zero_le _) (by rw [List.length_append]; omega)
-      rw [this, take_head]
-    have x2 : EvIn P G O 1 e1 (.assign 12 [] (.cat (.slice (.var 12) (.lit 0) (.len (.var 4))) (.var 14))) e2 .norm :=
-      EvIn.assign (evalV_catB hhd (evar (v := bytesV pt) rfl))
-    have x3 : EvIn P G O 1 e2 (.assign 13 [] (.var 15)) e3 .norm := EvIn.assign (v := .int 1) rfl
-    refine ⟨e3, ?_, rfl, rfl, rfl⟩
-    exact (ite_true (open_cond c ns ts cap dst nonce ct aad)
-      (decide_eq_true (by rw [List.length_append, List.length_replicate]; omega))
-      (EvIn.seq (open_frame hL c ns ts cap dst nonce ct aad) (EvIn.seq x1 (EvIn.seq x2 x3)))).mono (by omega)
+  · obtain ⟨temp', hdo⟩ := open_do1_ok (P := P) (G := G) hL c ns ts cap dst nonce ct aad pt hts' htc hcl ho
+    obtain ⟨v, hchk⟩ := open_checks1 (P := P) (G := G) hL c ns ts cap dst nonce ct aad hlen
+    exact ⟨_, (ite_true (open_cond c ns ts cap dst nonce ct aad)
+      (decide_eq_true (by rw [List.length_append, List.length_replicate]; omega)) (hchk _ _ _ (hdo v))).mono (by omega),
+      rfl, rfl, rfl⟩
   · obtain ⟨temp', hO⟩ := hL.openOk ts [] nonce ct aad (List.replicate 32 0) pt hts' htc hcl
       (by simp; omega) (by simp) ho
     have hpt : pt = [] := List.eq_nil_of_length_eq_zero (by
       rw [Proofs.GCMGlue.length_openGCM E hL.E_len ts nonce ct aad pt ho]; omega)
     have hz : List.replicate (ct.length - ts) (0 : UInt8) = [] := by
       rw [show ct.length - ts = 0 by omega]; rfl
-    let e0 := openEnv c rk ns ts dst nonce ct aad cap
-    let e1 := ((e0.set 9 (bytesV pt)).set 10 (bytesV temp')).set 16 (.int 1)
-    let e2 := e1.set 13 (.int 1)
-    have x1 : EvIn P G O 1 e0 (.ext [9, 10, 16] 10 false [(.var 1), (.var 3), (.mk (.lit 0) (.lit 0)), (.var 5), (.var 6), (.var 7), (.var 10)]) e1 .norm :=
-      evIn_ext (open_args2 c ns ts cap dst nonce ct aad) (by rw [hO]; rfl)
-    have x2 : EvIn P G O 1 e1 (.assign 13 [] (.var 16)) e2 .norm := EvIn.assign (v := .int 1) rfl
-    refine ⟨e2, ?_, rfl, ?_, rfl⟩
-    · exact (ite_false (open_cond c ns ts cap dst nonce ct aad)
-        (decide_eq_false (by rw [List.length_append, List.length_replicate]; omega))
-        (EvIn.seq (open_frame hL c ns ts cap dst nonce ct aad) (EvIn.seq x1 x2))).mono (by omega)
-    · show bytesV (dst ++ List.replicate (ct.length - ts) 0) = _
-      rw [hz, hpt]
+    obtain ⟨v, hchk⟩ := open_checks2 (P := P) (G := G) hL c ns ts cap dst nonce ct aad
+    refine ⟨_, (ite_false (open_cond c ns ts cap dst nonce ct aad)
+      (decide_eq_false (by rw [List.length_append, List.length_replicate]; omega))
+      (hchk _ _ _ (open_do2 hL c ns ts cap dst nonce ct aad pt temp' 1 hO v))).mono (by omega), rfl, ?_, rfl⟩
+    show bytesV (dst ++ List.replicate (ct.length - ts) 0) = _
+    rw [hz, hpt]
 
 /-- the call of `openAsm` (either shape), rejected tag: `tagMatch` = 0 -/
 theorem open_branch_fail (hL : LeafOkAmd64 O E rk) (c : Val) (ns ts cap : Nat) (dst nonce ct aad : Bytes)
     (hts' : ts ≤ 16) (htc : ts ≤ ct.length) (hcl : ct.length ≤ maxPlain + ts) (ho : openGCM E ts nonce ct aad = none) :
-    ∃ env', EvIn P G O 8 (openEnv c rk ns ts dst nonce ct aad cap) openBranch env' .norm ∧
+    ∃ env', EvIn P G O 14 (openEnv c rk ns ts dst nonce ct aad cap) openBranch env' .norm ∧
       env' 4 = bytesV dst ∧ env' 13 = .int 0 := by
   by_cases hlen : ts < ct.length
-  · obtain ⟨dst', temp', hO⟩ := hL.openFail ts (List.replicate (ct.length - ts) 0) nonce ct aad (List.replicate 32 0) hts' htc hcl
-      (by simp) (by simp) ho
-    let e0 := openEnv c rk ns ts dst nonce ct aad cap
-    let e1 := ((e0.set 14 (bytesV dst')).set 10 (bytesV temp')).set 15 (.int 0)
-    let e2 := e1.set 12 (bytesV (dst ++ dst'))
-    let e3 := e2.set 13 (.int 0)
-    have x1 : EvIn P G O 1 e0 (.ext [14, 10, 15] 10 false [(.var 1), (.var 3), (.slice (.var 12) (.len (.var 4)) (.len (.var 12))), (.var 5), (.var 6), (.var 7), (.var 10)]) e1 .norm :=
-      evIn_ext (open_args1 c ns ts cap dst nonce ct aad) (by rw [hO]; rfl)
-    have hhd : evalV G e1 (.slice (.var 12) (.lit 0) (.len (.var 4))) = some (bytesV dst) := by
-      have := evalV_sliceB (G := G) (env := e1) (a := .var 12) (lo := .lit 0) (hi := .len (.var 4))
-        (x := dst ++ List.replicate (ct.length - ts) 0)
-        (l := 0) (h := dst.length) rfl rfl (evalV_lenB (x := dst) rfl) (Nat.zero_le _) (by rw [List.length_append]; omega)
-      rw [this, take_head]
-    have x2 : EvIn P G O 1 e1 (.assign 12 [] (.cat (.slice (.var 12) (.lit 0) (.len (.var 4))) (.var 14))) e2 .norm :=
-      EvIn.assign (evalV_catB hhd (evar (v := bytesV dst') rfl))
-    have x3 : EvIn P G O 1 e2 (.assign 13 [] (.var 15)) e3 .norm := EvIn.assign (v := .int 0) rfl
-    refine ⟨e3, ?_, rfl, rfl⟩
-    exact (ite_true (open_cond c ns ts cap dst nonce ct aad)
-      (decide_eq_true (by rw [List.length_append, List.length_replicate]; omega))
-      (EvIn.seq (open_frame hL c ns ts cap dst nonce ct aad) (EvIn.seq x1 (EvIn.seq x2 x3)))).mono (by omega)
+  · obtain ⟨dst', temp', hdo⟩ := open_do1_fail (P := P) (G := G) hL c ns ts cap dst nonce ct aad hts' htc hcl ho
+    obtain ⟨v, hchk⟩ := open_checks1 (P := P) (G := G) hL c ns ts cap dst nonce ct aad hlen
+    exact ⟨_, (ite_true (open_cond c ns ts cap dst nonce ct aad)
+      (decide_eq_true (by rw [List.length_append, List.length_replicate]; omega)) (hchk _ _ _ (hdo v))).mono (by omega),
+      rfl, rfl⟩
   · obtain ⟨dst', temp', hO⟩ := hL.openFail ts [] nonce ct aad (List.replicate 32 0) hts' htc hcl
       (by simp; omega) (by simp) ho
-    let e0 := openEnv c rk ns ts dst nonce ct aad cap
-    let e1 := ((e0.set 9 (bytesV dst')).set 10 (bytesV temp')).set 16 (.int 0)
-    let e2 := e1.set 13 (.int 0)
-    have x1 : EvIn P G O 1 e0 (.ext [9, 10, 16] 10 false [(.var 1), (.var 3), (.mk (.lit 0) (.lit 0)), (.var 5), (.var 6), (.var 7), (.var 10)]) e1 .norm :=
-      evIn_ext (open_args2 c ns ts cap dst nonce ct aad) (by rw [hO]; rfl)
-    have x2 : EvIn P G O 1 e1 (.assign 13 [] (.var 16)) e2 .norm := EvIn.assign (v := .int 0) rfl
-    refine ⟨e2, ?_, rfl, rfl⟩
-    exact (ite_false (open_cond c ns ts cap dst nonce ct aad)
+    obtain ⟨v, hchk⟩ := open_checks2 (P := P) (G := G) hL c ns ts cap dst nonce ct aad
+    exact ⟨_, (ite_false (open_cond c ns ts cap dst nonce ct aad)
       (decide_eq_false (by rw [List.length_append, List.length_replicate]; omega))
-      (EvIn.seq (open_frame hL c ns ts cap dst nonce ct aad) (EvIn.seq x1 x2))).mono (by omega)
+      (hchk _ _ _ (open_do2 hL c ns ts cap dst nonce ct aad dst' temp' 0 hO v))).mono (by omega), rfl, rfl⟩
 
 /-- the two panicking checks of Open pass -/
 theorem open_checks (c : Val) (ns ts cap : Nat) (dst nonce ct aad : Bytes) (hn : nonce.length = ns) (hts : 12 ≤ ts) :
@@ -755,15 +954,17 @@ theorem open_bound (c : Val) (ns ts cap : Nat) (dst nonce ct aad : Bytes) (hts' 
     (ev_op2 (n := 68719476704) (r := (68719476704 : Int) + (ts : Int)) rfl (ev_conv_u64 (evar (v := .int (ts : Int)) rfl) (by omega))
       (by simp only [evalOp2, norm]; congr 1; omega)) rfl
 
-/-- Open from its entry to the call of `openAsm`, inside the AEAD domain -/
-theorem open_run (h1 : P[1]? = some fn_1) (hL : LeafOkAmd64 O E rk) (c : Val) (ns ts cap : Nat) (dst nonce ct aad : Bytes)
+/-- Open from its entry to `var tagMatch int`, inside the AEAD domain: what follows (`rest`) runs in `openEnv`; both for
+    completed and for stuck continuations -/
+theorem open_pre (h1 : P[1]? = some fn_1) (hL : LeafOkAmd64 O E rk) (c : Val) (ns ts cap : Nat) (dst nonce ct aad : Bytes)
     (hn : nonce.length = ns) (hts : 12 ≤ ts) (hts' : ts ≤ 16) (htc' : ts ≤ ct.length) (hcl : ct.length ≤ maxPlain + ts)
-    (hc : dst.length ≤ cap) (hcap : cap < 2 ^ 62)
-    {F : Nat} {env' : Env} {r : Ctl} (hrest : EvIn P G O F (openEnv c rk ns ts dst nonce ct aad cap) (.seq openBranch openTail) env' r) :
-    EvIn P G O (F + fuelEnsAmd64 + 20) (Env.ofList (glueArgs c rk ns ts dst nonce ct aad cap)) fn_2.body env' r := by
+    (hc : dst.length ≤ cap) (hcap : cap < 2 ^ 62) (rest : Stmt) :
+    (∀ (F : Nat) (env' : Env) (r : Ctl), EvIn P G O F (openEnv c rk ns ts dst nonce ct aad cap) rest env' r →
+      EvIn P G O (F + fuelEnsAmd64 + 20) (Env.ofList (glueArgs c rk ns ts dst nonce ct aad cap)) (openPrefix rest) env' r) ∧
+    (Stuck P G O (openEnv c rk ns ts dst nonce ct aad cap) rest →
+      Stuck P G O (Env.ofList (glueArgs c rk ns ts dst nonce ct aad cap)) (openPrefix rest)) := by
   have hcl' : ct.length ≤ 68719476704 + ts := hcl
   obtain ⟨c1, c2⟩ := open_checks (P := P) (G := G) (O := O) (rk := rk) c ns ts cap dst nonce ct aad hn hts
-  rw [fn_2_body]
   let e0 : Env := Env.ofList (glueArgs c rk ns ts dst nonce ct aad cap)
   let z : Bytes := List.replicate (ct.length - ts) 0
   let e1 := e0.set 10 (bytesV (List.replicate 32 0))
@@ -786,8 +987,11 @@ theorem open_run (h1 : P[1]? = some fn_1) (hL : LeafOkAmd64 O E rk) (c : Val) (n
   have c7 : EvIn P G O 1 e2 (.assign 12 [] (.var 11)) e3 .norm := EvIn.assign (v := bytesV (dst ++ z)) rfl
   have c8 : EvIn P G O 1 e3 (.assign 13 [] (.lit 0)) (openEnv c rk ns ts dst nonce ct aad cap) .norm :=
     EvIn.assign (v := .int 0) rfl
-  exact (EvIn.seq c1 (EvIn.seq c2 (EvIn.seq c3 (EvIn.seq c4 (EvIn.seq c5 (EvIn.seq c6 (EvIn.seq c7 (EvIn.seq c8 hrest)))))))).mono
-    (by omega)
+  refine ⟨fun F env' r hrest => ?_, fun hrest => ?_⟩
+  · exact (EvIn.seq c1 (EvIn.seq c2 (EvIn.seq c3 (EvIn.seq c4 (EvIn.seq c5 (EvIn.seq c6 (EvIn.seq c7 (EvIn.seq c8 hrest)))))))).mono
+      (by omega)
+  · exact Stuck.seq_right c1 (Stuck.seq_right c2 (Stuck.seq_right c3 (Stuck.seq_right c4 (Stuck.seq_right c5
+      (Stuck.seq_right c6 (Stuck.seq_right c7 (Stuck.seq_right c8 hrest)))))))
 
 /-- BODY LEVEL: Open inside the AEAD domain -/
 theorem open_body (h1 : P[1]? = some fn_1) (hL : LeafOkAmd64 O E rk) (c : Val) (ns ts cap : Nat) (dst nonce ct aad : Bytes)
@@ -808,17 +1012,17 @@ theorem open_body (h1 : P[1]? = some fn_1) (hL : LeafOkAmd64 O E rk) (c : Val) (
         (open_err rfl)
     exact ⟨_, (EvIn.seq c1 (EvIn.seq c2 (EvIn.seq_stop c3 (by simp)))).mono (by simp only [fuelOpenAmd64]; omega)⟩
   · have htc' : ts ≤ ct.length := by omega
+    have hpre := (open_pre (G := G) h1 hL c ns ts cap dst nonce ct aad hn hts hts' htc' hcl hc hcap (.seq openBranch openTail)).1
+    rw [fn_2_body]
     cases ho : openGCM E ts nonce ct aad with
     | some pt =>
       obtain ⟨e5, hbr, g4, g12, g13⟩ := open_branch_ok (P := P) (G := G) hL c ns ts cap dst nonce ct aad pt hts' htc' hcl ho
       obtain ⟨e6, htl⟩ := open_tail_ok (P := P) (G := G) (O := O) g4 g12 g13
-      exact ⟨e6, (open_run h1 hL c ns ts cap dst nonce ct aad hn hts hts' htc' hcl hc hcap (EvIn.seq hbr htl)).mono
-        (by simp only [fuelOpenAmd64]; omega)⟩
+      exact ⟨e6, (hpre _ _ _ (EvIn.seq hbr htl)).mono (by simp only [fuelOpenAmd64]; omega)⟩
     | none =>
       obtain ⟨e5, hbr, g4, g13⟩ := open_branch_fail (P := P) (G := G) hL c ns ts cap dst nonce ct aad hts' htc' hcl ho
       obtain ⟨e6, htl⟩ := open_tail_err (P := P) (G := G) (O := O) g4 g13
-      exact ⟨e6, (open_run h1 hL c ns ts cap dst nonce ct aad hn hts hts' htc' hcl hc hcap (EvIn.seq hbr htl)).mono
-        (by simp only [fuelOpenAmd64]; omega)⟩
+      exact ⟨e6, (hpre _ _ _ (EvIn.seq hbr htl)).mono (by simp only [fuelOpenAmd64]; omega)⟩
 
 /-- **Open (amd64) computes the specification**: on a nonce of the configured size, a tag size in 12…16 and an input
     (ciphertext ‖ tag) inside the GCM bound, the IR function returns `dst` (unchanged) and
@@ -834,6 +1038,48 @@ theorem ir_Open_amd64_eq_spec (h1 : P[1]? = some fn_1) (h2 : P[2]? = some fn_2) 
         | none => [bytesV dst, .arr [], G 0]) := by
   obtain ⟨env', hb⟩ := open_body (G := G) h1 hL c ns ts cap dst nonce ct aad hn hts hts' hcl hc hcap
   exact Computes.of_body h2 rfl rfl hb
+
+/-- the empty plaintext: an input that is a valid tag only — `openAsm` is called with a nil destination and Open returns
+    `(dst, nil)` -/
+theorem ir_Open_amd64_tag_only (h1 : P[1]? = some fn_1) (h2 : P[2]? = some fn_2) (hL : LeafOkAmd64 O E rk) (c : Val)
+    (ns ts cap : Nat) (dst nonce ct aad pt : Bytes)
+    (hn : nonce.length = ns) (hts : 12 ≤ ts) (hts' : ts ≤ 16) (hct : ct.length = ts)
+    (hc : dst.length ≤ cap) (hcap : cap < 2 ^ 62) (ho : openGCM E ts nonce ct aad = some pt) :
+    Computes P G O 2 fuelOpenAmd64 (glueArgs c rk ns ts dst nonce ct aad cap) [bytesV dst, bytesV dst, .int 0] := by
+  have h := ir_Open_amd64_eq_spec (G := G) h1 h2 hL c ns ts cap dst nonce ct aad hn hts hts' (by omega) hc hcap
+  have hpt : pt = [] := List.eq_nil_of_length_eq_zero (by
+    rw [Proofs.GCMGlue.length_openGCM E hL.E_len ts nonce ct aad pt ho]; omega)
+  subst hpt
+  rw [ho] at h
+  simp only [List.append_nil] at h
+  exact h
+
+theorem stuck_ite_true {env : Env} {c : Expr} {a b : Stmt} {β : Bool}
+    (hc : evalV G env c = some (.int (ofBool β))) (hβ : β = true) (h : Stuck P G O env a) : Stuck P G O env (.ite c a b) := by
+  subst hβ; exact Stuck.ite hc (asBool_ofBool _) h
+
+/-- **the MUTANT is told apart**: with the guard of line 46 changed to `>=`, Open on an input that is a tag only takes
+    `&ret[len(dst)]` of an empty tail — a Go index panic: the run of `fn_2_mut` is STUCK with every fuel (whatever the tag),
+    whereas `fn_2` returns `(dst, nil)` on a valid tag (`ir_Open_amd64_tag_only`) -/
+theorem ir_Open_amd64_mutant_stuck (h1 : P[1]? = some fn_1) (h2 : P[2]? = some fn_2_mut) (hL : LeafOkAmd64 O E rk) (c : Val)
+    (ns ts cap : Nat) (dst nonce ct aad : Bytes)
+    (hn : nonce.length = ns) (hts : 12 ≤ ts) (hts' : ts ≤ 16) (hct : ct.length = ts)
+    (hc : dst.length ≤ cap) (hcap : cap < 2 ^ 62) :
+    ∀ f, runV P G O f 2 (glueArgs c rk ns ts dst nonce ct aad cap) = .stuck := by
+  have hpre := (open_pre (G := G) h1 hL c ns ts cap dst nonce ct aad hn hts hts' (by omega) (by omega) hc hcap
+    (.seq openBranchMut openTail)).2
+  refine runV_of_Stuck h2 (hpre (Stuck.seq_left ?_))
+  obtain ⟨w, ws, hrk⟩ := hL.rk_ne
+  have k1 : evalV G (openEnv c rk ns ts dst nonce ct aad cap) (.idxc (.var 1) 0) = some w :=
+    ev_idxc0_arr (ws := ws) (by rw [← hrk]; rfl)
+  have hcond : evalV G (openEnv c rk ns ts dst nonce ct aad cap) (.op2 .ge (.len (.var 12)) (.len (.var 4)))
+      = some (.int (ofBool (decide ((dst.length : Int) ≤ ((dst ++ List.replicate (ct.length - ts) (0 : UInt8)).length : Int))))) :=
+    ev_op2 (evalV_lenB (x := dst ++ List.replicate (ct.length - ts) 0) rfl) (evalV_lenB (x := dst) rfl) rfl
+  refine stuck_ite_true hcond (decide_eq_true (by rw [List.length_append]; omega))
+    (Stuck.seq_right (EvIn.assign k1) (Stuck.seq_left (Stuck.assign ?_)))
+  exact ev_idx_none (G := G) (env := (openEnv c rk ns ts dst nonce ct aad cap).set 9 w) (a := .var 12) (i := .len (.var 4))
+    (x := dst ++ List.replicate (ct.length - ts) 0) (k := dst.length) rfl (evalV_lenB (x := dst) rfl)
+    (by rw [List.length_append, List.length_replicate]; omega)
 
 /-- OUTSIDE the AEAD domain: an input longer than ((1<<32)-2)·16 + tagSize bytes is refused with `(nil, errOpen)` without
     calling any routine (`openGCM`, which has no length bound, may well return a plaintext there) -/
@@ -883,11 +1129,12 @@ variable {G : Nat → Val} {O : Oracle} {E : Bytes → Bytes} {rk : Val}
 
 /-- a completed run of Seal in `Amd64.prog` -/
 theorem run_Seal_amd64 (hL : LeafOkAmd64 O E rk) (c : Val) (ns ts cap : Nat) (dst nonce pt aad : Bytes)
-    (hn : nonce.length = ns) (hp : pt.length ≤ maxPlain) (hts : ts ≤ 16) (hc : dst.length ≤ cap) (hcap : cap < 2 ^ 62)
+    (hn : nonce.length = ns) (hp : pt.length ≤ maxPlain) (hts : ts ≤ 16) (hne : 0 < pt.length + ts)
+    (hc : dst.length ≤ cap) (hcap : cap < 2 ^ 62)
     (f : Nat) (hf : fuelSealAmd64 ≤ f) :
     ∃ t, run PX G O f 0 (glueArgs c rk ns ts dst nonce pt aad cap)
       = some (.ret [bytesV dst, bytesV (dst ++ sealGCM E ts nonce pt aad)], t) :=
-  run_of_runV PX G O f _ _ _ ((ir_Seal_amd64_eq_spec (P := PX) rfl rfl hL c ns ts cap dst nonce pt aad hn hp hts hc hcap).runV f hf)
+  run_of_runV PX G O f _ _ _ ((ir_Seal_amd64_eq_spec (P := PX) rfl rfl hL c ns ts cap dst nonce pt aad hn hp hts hne hc hcap).runV f hf)
 
 /-- a completed run of Open in `Amd64.prog` with its globals: accepted -/
 theorem run_Open_amd64_some (hL : LeafOkAmd64 O E rk) (c : Val) (ns ts cap : Nat) (dst nonce ct aad pt : Bytes)
@@ -911,15 +1158,16 @@ theorem run_Open_amd64_none (hL : LeafOkAmd64 O E rk) (c : Val) (ns ts cap : Nat
 
 /-- CLOSED FORM, reference semantics: with the oracle of `semAmd64` and round-key words `rkw`, a run of Seal in the generated
     program returns `dst ‖ sealGCM (SM4 with rkw)` -/
-theorem run_Seal_amd64_ref (rkw : List W32) (c : Val) (ns ts cap : Nat) (dst nonce pt aad : Bytes)
-    (hn : nonce.length = ns) (hp : pt.length ≤ maxPlain) (hts : ts ≤ 16) (hc : dst.length ≤ cap) (hcap : cap < 2 ^ 62)
+theorem run_Seal_amd64_ref (rkw : List W32) (hrk : rkw ≠ []) (c : Val) (ns ts cap : Nat) (dst nonce pt aad : Bytes)
+    (hn : nonce.length = ns) (hp : pt.length ≤ maxPlain) (hts : ts ≤ 16) (hne : 0 < pt.length + ts)
+    (hc : dst.length ≤ cap) (hcap : cap < 2 ^ 62)
     (f : Nat) (hf : fuelSealAmd64 ≤ f) :
     ∃ t, run PX GX (asmOracle specsX semAmd64) f 0 (glueArgs c (.arr (rkw.map w32V)) ns ts dst nonce pt aad cap)
       = some (.ret [bytesV dst, bytesV (dst ++ sealGCM (Spec.SM4.cryptFast rkw) ts nonce pt aad)], t) :=
-  run_Seal_amd64 (leafSpecAmd64_sem rkw) c ns ts cap dst nonce pt aad hn hp hts hc hcap f hf
+  run_Seal_amd64 (leafSpecAmd64_sem rkw hrk) c ns ts cap dst nonce pt aad hn hp hts hne hc hcap f hf
 
 /-- CLOSED FORM, reference semantics: Open -/
-theorem run_Open_amd64_ref (rkw : List W32) (c : Val) (ns ts cap : Nat) (dst nonce ct aad : Bytes)
+theorem run_Open_amd64_ref (rkw : List W32) (hrk : rkw ≠ []) (c : Val) (ns ts cap : Nat) (dst nonce ct aad : Bytes)
     (hn : nonce.length = ns) (hts : 12 ≤ ts) (hts' : ts ≤ 16) (hcl : ct.length ≤ maxPlain + ts)
     (hc : dst.length ≤ cap) (hcap : cap < 2 ^ 62) (f : Nat) (hf : fuelOpenAmd64 ≤ f) :
     ∃ t, run PX GX (asmOracle specsX semAmd64) f 2 (glueArgs c (.arr (rkw.map w32V)) ns ts dst nonce ct aad cap)
@@ -927,8 +1175,8 @@ theorem run_Open_amd64_ref (rkw : List W32) (c : Val) (ns ts cap : Nat) (dst non
           | some pt => [bytesV dst, bytesV (dst ++ pt), .int 0]
           | none => [bytesV dst, .arr [], .int 1]), t) := by
   cases ho : openGCM (Spec.SM4.cryptFast rkw) ts nonce ct aad with
-  | some pt => exact run_Open_amd64_some (leafSpecAmd64_sem rkw) c ns ts cap dst nonce ct aad pt hn hts hts' hcl hc hcap ho f hf
-  | none => exact run_Open_amd64_none (leafSpecAmd64_sem rkw) c ns ts cap dst nonce ct aad hn hts hts' hcl hc hcap ho f hf
+  | some pt => exact run_Open_amd64_some (leafSpecAmd64_sem rkw hrk) c ns ts cap dst nonce ct aad pt hn hts hts' hcl hc hcap ho f hf
+  | none => exact run_Open_amd64_none (leafSpecAmd64_sem rkw hrk) c ns ts cap dst nonce ct aad hn hts hts' hcl hc hcap ho f hf
 
 end Runs
 
@@ -937,6 +1185,9 @@ end SMGo.Proofs.CTIRRefineGCMAmd64
 #print axioms SMGo.Proofs.CTIRRefineGCMAmd64.leafSpecAmd64_sem
 #print axioms SMGo.Proofs.CTIRRefineGCMAmd64.ensureCapacity_amd64_computes
 #print axioms SMGo.Proofs.CTIRRefineGCMAmd64.ir_Seal_amd64_eq_spec
+#print axioms SMGo.Proofs.CTIRRefineGCMAmd64.ir_Seal_amd64_stuck_empty
+#print axioms SMGo.Proofs.CTIRRefineGCMAmd64.ir_Open_amd64_tag_only
+#print axioms SMGo.Proofs.CTIRRefineGCMAmd64.ir_Open_amd64_mutant_stuck
 #print axioms SMGo.Proofs.CTIRRefineGCMAmd64.ir_Seal_amd64_panic_nonce
 #print axioms SMGo.Proofs.CTIRRefineGCMAmd64.ir_Seal_amd64_panic_long
 #print axioms SMGo.Proofs.CTIRRefineGCMAmd64.ir_Open_amd64_eq_spec
